@@ -238,7 +238,9 @@ def grid_strategy():
       'designer': st.just('grid'),
       'space': _det_space(),
       'ctor': st.fixed_dictionaries({
-          'shuffle_seed': lib.seed(),
+          # Python's random.Random takes any int: negative seeds are legal here
+          'shuffle_seed': st.one_of(lib.seed(), lib.seed(),
+                                    st.sampled_from([-5, -1, -2 ** 31])),
           'double_grid_resolution': st.sampled_from([10, 10, 2, 3]),
       }),
       't0': lib.t0(),
